@@ -314,3 +314,28 @@ Proof.
   assert (HP3 : Permutation (v_values vs') (v_values vs)) by (rewrite Hv; apply vsort_perm).
   split; [exact HP3|]. apply vsort_perm_eq. exact HP3.
 Qed.
+
+(* ---- everything a caller can observe of a built set, against the specification ---- *)
+Theorem build_observables ops vs : weights_fit ops -> build ops = Some vs ->
+  combine (sorted_ids vs) (sorted_weights vs) = canon ops /\
+  canon_ok (eff_pairs ops) (combine (sorted_ids vs) (sorted_weights vs)) = true /\
+  length (sorted_ids vs) = length (eff_pairs ops) /\
+  length (sorted_weights vs) = length (eff_pairs ops) /\
+  total_weight vs = spec_total ops /\
+  (forall id, get vs id = eff ops id) /\
+  (forall id, exists_id vs id = negb (eff ops id =? 0)) /\
+  (forall id, get_idx vs id = spec_idx ops id) /\
+  (forall i id, nth_error (sorted_ids vs) i = Some id -> get_idx vs id = i).
+Proof.
+  intros Hf Hb. pose proof (build_spec ops Hf) as H. rewrite Hb in H. destruct H as [H1 [Hc HP]].
+  assert (Hids : sorted_ids vs = map fst (canon ops)) by (unfold sorted_ids; rewrite Hc; reflexivity).
+  assert (Hws : sorted_weights vs = map snd (canon ops)) by (unfold sorted_weights; rewrite Hc; reflexivity).
+  assert (Hlen : length (canon ops) = length (eff_pairs ops)) by (apply Permutation_length, canon_perm).
+  rewrite Hids, Hws, combine_fst_snd, !map_length.
+  split; [reflexivity|]. split; [apply canon_ok_canon|]. split; [exact Hlen|]. split; [exact Hlen|].
+  split; [unfold total_weight; rewrite Hc; cbn [cache_of c_total]; apply sum_weights_perm, canon_perm|].
+  split; [apply build_get; exact Hb|]. split; [apply build_exists; exact Hb|].
+  split; [apply get_idx_spec; assumption|].
+  intros i id Hn. unfold get_idx. rewrite Hc. unfold cache_of. cbn [c_indexes]. fold (canon ops).
+  rewrite <- (map_length fst (canon ops)). apply cache_idx_pos; [apply canon_keys_nodup|exact Hn].
+Qed.
